@@ -191,8 +191,20 @@ class _Canon(ast.NodeTransformer):
             self.count += 1
         return n
 
+    @staticmethod
+    def _nn(t):
+        while isinstance(t, ast.UnaryOp) and isinstance(t.op, ast.Not) and isinstance(t.operand, ast.UnaryOp) and isinstance(t.operand.op, ast.Not):
+            t = t.operand.operand      # only truthiness is observed in a test
+        return t
+
+    def visit_While(self, n):
+        self.generic_visit(n)
+        n.test = self._nn(n.test)
+        return n
+
     def visit_If(self, n):
         self.generic_visit(n)
+        n.test = self._nn(n.test)
         if n.orelse and isinstance(n.test, ast.UnaryOp) and isinstance(n.test.op, ast.Not):
             n.test, n.body, n.orelse = n.test.operand, n.orelse, n.body
             self.count += 1
@@ -205,6 +217,7 @@ class _Canon(ast.NodeTransformer):
 
     def visit_IfExp(self, n):
         self.generic_visit(n)
+        n.test = self._nn(n.test)
         if isinstance(n.test, ast.UnaryOp) and isinstance(n.test.op, ast.Not):
             n.test, n.body, n.orelse = n.test.operand, n.orelse, n.body
             self.count += 1
@@ -898,7 +911,7 @@ class ModuleNormaliser:
             if prelude or any(isinstance(v, tuple) for v in mapping.values()) or not all(is_pure(v) for v in mapping.values()):
                 continue
             new = Subst(mapping).visit(clone(expr))
-            parent = getattr(call, "_parent", None)
+            parent = next((n_ for n_ in ast.walk(st) if any(ch is call for ch in ast.iter_child_nodes(n_))), None)   # cloned statements carry no back-links
             if parent is None:
                 continue
             replaced = False
